@@ -184,10 +184,10 @@ def run(rep):
     obls.append((policy.imsaak, None))
     results = base.run_obligations(rep, obls)
     cands = [c for x in results for c in x["cands"]]
-    ims_open = any((x["cands"] or x["inconclusive"]) for x in results if x["name"].startswith("get_imsaak"))
+    ims_open = any((x["cands"] or x["inconclusive"]) for x in results if x.get("fn") == "imsaak")
     if cands and confirm_rounding(rep, results):
-        cands = [c for x in results for c in x["cands"] if x["name"].startswith("get_imsaak")]
-    if cands or ims_open:
+        cands = [c for x in results for c in x["cands"] if x.get("fn") == "imsaak"]
+    if cands or ims_open or any(x["inconclusive"] for x in results):
         modes = sorted({c["inputs"].get("mode") for c in cands if c["inputs"].get("mode")}) or rounding.MODES
         if ims_open:
             modes = rounding.MODES
@@ -216,6 +216,8 @@ def run(rep):
         if not repro and cands:
             rep.inconclusive.append("solver counterexamples (exact-real model of hour_to_time) were not reproduced through the public API "
                                     "by the native scan; first: %r" % (cands[:1],))
+    from . import policyprop as _pp
+    _pp.purity_native(rep)     # "a fixed function of the unrounded time": not of what was asked before
     run_bits(rep)
     # a harness whose only failure is the recorded f64 sliver finding is not an unexplained failure
     kf = {f.get("key") for f in load_known_findings().get("findings", []) if f.get("property") == "C11"}
